@@ -27,6 +27,9 @@ def render(components, arrows, rng):
 def make_case(rng, comps_pool=gen.PLAIN):
     base = "p"
     kids = rng.sample([c for c in comps_pool if c != base], rng.randint(2, 6))
+    if rng.random() < 0.25:
+        # a component named like the base module itself (package p.p): with_base_module("p") must still mean p.p
+        kids[rng.randrange(len(kids))] = base
     nodes = [base] + [f"{base}.{k}" for k in kids]
     for k in kids:
         for sub in rng.sample(comps_pool, rng.randint(0, 2)):
